@@ -24,6 +24,7 @@ func schemaHTTPBody() *fakeMD {
 // order, then io.EOF; a truncated stream yields the complete prefix and then a non-EOF error.
 // The read schedule (partition into reads, EOF placement) is arbitrary.
 func VerifH_http_recv_stream() {
+	vfSeedPool()
 	k := vfLen(vfBound(2, 3))
 	json := vfBool()
 	var framing StreamCodec = CodecProto{}
@@ -128,6 +129,7 @@ func VerifH_http_recv_stream() {
 // VerifH_http_recv_body (C06, C08): an HttpBody upload is delivered as chunks of at most the
 // receive limit whose concatenation is the body, followed by io.EOF.
 func VerifH_http_recv_body() {
+	vfSeedPool()
 	limit := 1 + vfLen(vfBound(2, 3))
 	total := vfLen(3*limit + 1)
 	body := vfBytes(total)
